@@ -210,7 +210,8 @@ def run_long_line_case(case, ctx):
     sm = [rnd.choice([1e-05, 2.173e-06, 0.001, 1.0]) for _ in range(3)]
     n1, n2, n3 = names_
     pad = ''.join(f" + {round(rnd.uniform(0.1, 0.9), 3)}*{rnd.choice(names_)}*z" for _ in range(rnd.randint(0, 3)))
-    eqs = [f"x' = -x*{n1}{pad} + {cf[0]}*{sm[0]}*{n1}*sin({cf[1]}*{sm[1]}*x*{n2}*cos({cf[2]}*{sm[2]}*z*{n3}))",
+    pw_, pe_ = rnd.choice(['**', '^']), rnd.choice([2, 3])
+    eqs = [f"x' = -x*{n1}{pad} + {cf[0]}*{sm[0]}*{n1}*sin({cf[1]}*{sm[1]}*x*{n2}*cos({cf[2]}*{sm[2]}*z*{n3})) - 0.01*({n2}*x + {n3}*z - tanh({n1}*x)){pw_}{pe_}*{n3}",
            f"z' = -z*{n2} + {n3}*tanh({n1}*x*{n2} + {cf[0]}*{sm[0]}*z*{n3}*{n1})*{n2}"]
     x0, z0 = round(rnd.uniform(-1, 1), 3), round(rnd.uniform(-1, 1), 3)
     res = {'features': [b, 'long_lines'], 'risk': [], 'sig': stable_hash([eqs, b, x0, z0, vals_]), 'nontrivial': True}
@@ -220,7 +221,8 @@ def run_long_line_case(case, ctx):
         padv = 0.0
         for m_ in re.finditer(r" \+ ([0-9.]+)\*(\w+)\*z", pad):
             padv += float(m_.group(1)) * v[m_.group(2)] * z
-        dx = -x * v[n1] + padv + cf[0] * sm[0] * v[n1] * math.sin(cf[1] * sm[1] * x * v[n2] * math.cos(cf[2] * sm[2] * z * v[n3]))
+        dx = -x * v[n1] + padv + cf[0] * sm[0] * v[n1] * math.sin(cf[1] * sm[1] * x * v[n2] * math.cos(cf[2] * sm[2] * z * v[n3])) \
+            - 0.01 * (v[n2] * x + v[n3] * z - math.tanh(v[n1] * x)) ** pe_ * v[n3]
         dz = -z * v[n2] + v[n3] * math.tanh(v[n1] * x * v[n2] + cf[0] * sm[0] * z * v[n3] * v[n1]) * v[n2]
         return {'x': dx, 'z': dz}
     try:
